@@ -916,8 +916,8 @@ func (rn *runner) random(kind string, stream string) error {
 	return rn.session(c, bucket, g.next)
 }
 
-// the minimal scenarios of the defects found so far (repaired ones included: they must stay
-// repaired, a recurrence is reported as a violation); always run first
+// the minimal scenarios of the defects found so far (all repaired: /repo 279f5fa, 09014a8): they must
+// stay repaired, a recurrence is reported as a violation with this operation sequence; always run first
 func directed() []Case {
 	nr := Opts{Buf: 16}
 	ap := func(s string) Op { return Op{K: "append", Bs: hex.EncodeToString([]byte(s))} }
